@@ -363,8 +363,18 @@ def main(argv=None):
             for p in st_procs:
                 p.kill()
         return 2
+    selftest_error = None
     if st_procs:
-        selftest = finish_selftest(st_procs, log)
+        try:
+            selftest = finish_selftest(st_procs, log)
+        except HarnessError as e:
+            # A confirmed violation (replayed in a fresh interpreter below) stands on its own; without one, a
+            # run whose digests depend on the interpreter configuration proves nothing and is a harness error.
+            selftest_error = str(e)
+            selftest = {'equal': False, 'error': selftest_error}
+            if not reports:
+                raise
+            log('warning: ' + selftest_error + ' (violations were found and are confirmed by replay below)')
 
     rc = 0
     known = load_known(pid)
